@@ -20,5 +20,313 @@ theorem textOp_result_eq (s : St) : (textOp true s).2 = (textOp false s).2 := by
       · rfl
       · exact textCore_result_eq _
     · exact textCore_result_eq _
+theorem rest_length (s : St) : (rest s).length = s.content.length - s.cur := by
+  unfold rest; simp
+
+theorem check_text_none {s : St} (h : check s .text true = none) : s.output = false ∧ s.ty = .text := by
+  unfold check at h
+  simp only [if_true] at h
+  cases ho : s.output
+  · simp only [ho] at h
+    by_cases ht : s.ty = .text
+    · exact ⟨rfl, ht⟩
+    · simp [ht] at h
+  · simp [ho] at h
+
+theorem check_text_of {s : St} (ho : s.output = false) (ht : s.ty = .text) : check s .text true = none := by
+  unfold check; simp [ho, ht]
+
+theorem check_reset (s : St) (t : Ty) (b : Bool) : check (resetSt s) t b = check s t b := rfl
+
+/-! ### peeking -/
+
+theorem textCore_peek_state (s : St) : (textCore false s).1 = s := by
+  unfold textCore
+  split
+  · rfl
+  · split <;> rfl
+
+theorem textOp_peek_state_cases (s : St) :
+    (textOp false s).1 = s ∨
+      (s.past = true ∧ s.eofAction = .reset ∧ check s .text true = none ∧ (textOp false s).1 = resetSt s) := by
+  unfold textOp
+  split
+  · left; rfl
+  · rename_i hc
+    split
+    · rename_i hp
+      split
+      · left; rfl
+      · left; rfl
+      · rename_i hr
+        right; exact ⟨hp, hr, hc, textCore_peek_state _⟩
+    · left; exact textCore_peek_state _
+
+theorem textOp_peek_state (s : St) (h : s.past = false ∨ s.eofAction ≠ .reset) : (textOp false s).1 = s := by
+  rcases textOp_peek_state_cases s with h1 | ⟨hp, hr, _, _⟩
+  · exact h1
+  · rcases h with h | h
+    · rw [hp] at h; cases h
+    · exact absurd hr h
+
+theorem textOp_of_none {s : St} (c : Bool) (hc : check s .text true = none) (hp : s.past = false) :
+    textOp c s = textCore c s := by
+  unfold textOp; rw [hc]; simp [hp]
+
+theorem textOp_reset {s : St} (c : Bool) (hc : check s .text true = none) (hp : s.past = true)
+    (hr : s.eofAction = .reset) : textOp c s = textCore c (resetSt s) := by
+  unfold textOp; rw [hc]; simp [hp, hr]
+
+theorem textOp_peek_then (c : Bool) (s : St) : textOp c (textOp false s).1 = textOp c s := by
+  rcases textOp_peek_state_cases s with h1 | ⟨hp, hr, hc, h2⟩
+  · rw [h1]
+  · rw [h2, textOp_reset c hc hp hr, textOp_of_none c (by rw [check_reset]; exact hc) rfl]
+
+
+/-! ### bytes -/
+theorem byteCore_result_eq (s : St) : (byteCore true s).2 = (byteCore false s).2 := by
+  unfold byteCore; split <;> rfl
+
+theorem byteCore_peek_state (s : St) : (byteCore false s).1 = s := by
+  unfold byteCore; split <;> rfl
+
+theorem byteOp_result_eq (s : St) : (byteOp true s).2 = (byteOp false s).2 := by
+  unfold byteOp
+  split
+  · rfl
+  · split
+    · split
+      · rfl
+      · rfl
+      · exact byteCore_result_eq _
+    · exact byteCore_result_eq _
+
+theorem byteOp_peek_state (s : St) (h : s.past = false ∨ s.eofAction ≠ .reset) : (byteOp false s).1 = s := by
+  unfold byteOp
+  split
+  · rfl
+  · split
+    · rename_i hp
+      split
+      · rfl
+      · rfl
+      · rename_i hr
+        rcases h with h | h
+        · rw [hp] at h; cases h
+        · exact absurd hr h
+    · exact byteCore_peek_state _
+
+/-! ### at_end_of_stream -/
+theorem atEnd_iff_peek_eof {s : St} (hc : check s .text true = none) (hp : s.past = false) (hi : Inv s) :
+    atEnd s = true ↔ (textOp false s).2 = .ok .eof := by
+  have ⟨ho, _⟩ := check_text_none hc
+  have hle : s.cur ≤ s.content.length := by
+    rcases hi with h | h
+    · exact h
+    · rw [hp] at h; cases h
+  rw [textOp_of_none false hc hp]
+  unfold atEnd endPos textCore
+  simp only [ho, hp, Bool.not_false, Bool.true_and, Bool.false_eq_true, if_false]
+  by_cases he : s.cur = s.content.length
+  · simp [he]
+  · have hlt : s.cur < s.content.length := by omega
+    simp only [he, hlt, if_false, if_true]
+    constructor
+    · intro h; simp at h
+    · intro h
+      split at h <;> simp at h
+
+/-! ### what a successful get does -/
+theorem textCore_get_char {s s' : St} {cp : Nat} (h : textCore true s = (s', .ok (.char cp))) :
+    s'.cur = s.cur + lenUtf8 cp ∧ (rest s).take (lenUtf8 cp) = encode cp ∧
+      s'.lines = s.lines + nlCount cp ∧ s'.past = s.past ∧ s'.content = s.content ∧
+      s.cur + lenUtf8 cp ≤ s.content.length ∨ False := by
+  left
+  unfold textCore at h
+  split at h
+  · simp at h
+  · split at h
+    · rename_i cp' n hd
+      simp only [if_true, Prod.mk.injEq, Res.ok.injEq, Val.char.injEq] at h
+      obtain ⟨hs, hcp⟩ := h
+      subst hcp
+      have hok := decodeFirst_ok hd
+      have hn : n = lenUtf8 cp' := hok.1
+      have hlen := hok.2.1
+      rw [rest_length] at hlen
+      subst hs
+      refine ⟨by simp [hn], ?_, by simp, rfl, rfl, ?_⟩
+      · rw [← hn]; exact decodeFirst_ok_take hd
+      · rw [← hn]; omega
+    · simp at h
+
+theorem countNl_append (a b : List Nat) : countNl (a ++ b) = countNl a + countNl b := by
+  induction a with
+  | nil => simp [countNl]
+  | cons x r ih => simp [countNl, ih, Nat.add_assoc]
+
+theorem countNl_encode (cp : Nat) : countNl (encode cp) = nlCount cp := by
+  unfold encode
+  split
+  · simp [countNl]
+  · rename_i h1
+    have hne : nlCount cp = 0 := by unfold nlCount; split <;> omega
+    rw [hne]
+    split
+    · simp only [countNl, nlCount]
+      split <;> split <;> omega
+    · split
+      · simp only [countNl, nlCount]
+        split <;> split <;> split <;> omega
+      · simp only [countNl, nlCount]
+        split <;> split <;> split <;> split <;> omega
+
+theorem take_add_rest (s : St) (n : Nat) :
+    s.content.take (s.cur + n) = s.content.take s.cur ++ (rest s).take n := by
+  unfold rest
+  rw [List.take_add]
+
+/-- the newline count of the consumed prefix after consuming `n` more bytes. -/
+theorem countNl_take_add (s : St) (n : Nat) :
+    countNl (s.content.take (s.cur + n)) = countNl (s.content.take s.cur) + countNl ((rest s).take n) := by
+  rw [take_add_rest, countNl_append]
+
+theorem takeWhile_append_drop (p : Nat → Bool) (l : List Nat) :
+    l.takeWhile p ++ l.drop (l.takeWhile p).length = l := by
+  induction l with
+  | nil => rfl
+  | cons a r ih =>
+    by_cases h : p a = true
+    · simp [List.takeWhile_cons, h, ih]
+    · simp [List.takeWhile_cons, h]
+
+/-- `takeChars`: the characters taken span `m` bytes of the input, and contain as many newline
+    characters as these bytes contain newline bytes. -/
+theorem takeChars_spec : ∀ (n : Nat) (l : List Nat),
+    (takeChars n l).2 ≤ l.length ∧ countNl (l.take (takeChars n l).2) = countNl (takeChars n l).1
+  | 0, l => by simp [takeChars, countNl]
+  | n+1, l => by
+    unfold takeChars
+    split
+    · rename_i cp k hd
+      have hok := decodeFirst_ok hd
+      have ih := takeChars_spec n (l.drop k)
+      simp only
+      constructor
+      · have := ih.1; simp at this; omega
+      · rw [List.take_add, countNl_append, ih.2, decodeFirst_ok_take hd, countNl_encode]
+        simp [countNl]
+    · simp [countNl]
+
+
+/-- the strong invariant of input text streams that are never repositioned. -/
+def Good (s : St) : Prop := s.cur ≤ s.content.length ∧ LinesInv s
+
+theorem good_reset (s : St) : Good (resetSt s) := by
+  refine ⟨Nat.zero_le _, ?_⟩
+  show 0 = countNl (s.content.take 0)
+  simp [countNl]
+
+theorem good_textCore (c : Bool) {s : St} (h : Good s) :
+    Good (textCore c s).1 ∧ (textCore c s).1.content = s.content := by
+  unfold textCore
+  split
+  · cases c
+    · exact ⟨h, rfl⟩
+    · exact ⟨⟨h.1, h.2⟩, rfl⟩
+  · split
+    · rename_i cp n hd
+      cases c
+      · exact ⟨h, rfl⟩
+      · have hok := decodeFirst_ok hd
+        have hlen := hok.2.1
+        rw [rest_length] at hlen
+        refine ⟨⟨?_, ?_⟩, rfl⟩
+        · show s.cur + n ≤ s.content.length
+          have := h.1; have := hok.2.2.1; omega
+        · show s.lines + nlCount cp = countNl (s.content.take (s.cur + n))
+          rw [countNl_take_add, decodeFirst_ok_take hd, countNl_encode, ← h.2]
+    · exact ⟨h, rfl⟩
+
+theorem good_textOp (c : Bool) {s : St} (h : Good s) :
+    Good (textOp c s).1 ∧ (textOp c s).1.content = s.content := by
+  unfold textOp
+  split
+  · exact ⟨h, rfl⟩
+  · split
+    · split
+      · exact ⟨h, rfl⟩
+      · exact ⟨h, rfl⟩
+      · exact good_textCore c (good_reset s)
+    · exact good_textCore c h
+
+theorem good_getNChars (n : Nat) {s : St} (h : Good s) (ht : s.ty = .text) :
+    Good (getNChars n s).1 ∧ (getNChars n s).1.content = s.content := by
+  unfold getNChars
+  split
+  · exact ⟨h, rfl⟩
+  · rw [ht]
+    simp only
+    have sp := takeChars_spec n (rest s)
+    rw [rest_length] at sp
+    refine ⟨⟨?_, ?_⟩, rfl⟩
+    · show s.cur + (takeChars n (rest s)).2 ≤ s.content.length
+      have := h.1; omega
+    · show s.lines + countNl (takeChars n (rest s)).1 = countNl (s.content.take (s.cur + (takeChars n (rest s)).2))
+      rw [countNl_take_add, sp.2, ← h.2]
+
+theorem good_advance {s : St} (h : Good s) (pre suf : List Nat) (hr : rest s = pre ++ suf) :
+    Good { s with cur := s.cur + pre.length, lines := s.lines + countNl pre } := by
+  have hl := rest_length s
+  rw [hr] at hl
+  simp only [List.length_append] at hl
+  refine ⟨?_, ?_⟩
+  · show s.cur + pre.length ≤ s.content.length
+    have := h.1; omega
+  · show s.lines + countNl pre = countNl (s.content.take (s.cur + pre.length))
+    rw [countNl_take_add, hr, List.take_left', ← h.2]
+    rfl
+
+theorem good_readCore {s : St} (h : Good s) :
+    Good (readCore s).1 ∧ (readCore s).1.content = s.content := by
+  unfold readCore
+  simp only
+  have e1 := takeWhile_append_drop isLayout (rest s)
+  split
+  · split
+    · exact ⟨⟨h.1, h.2⟩, rfl⟩
+    · exact ⟨good_advance h _ _ e1.symm, rfl⟩
+  · have e2 := takeWhile_append_drop (fun b => b != 46) ((rest s).drop ((rest s).takeWhile isLayout).length)
+    split
+    · rename_i after hd
+      rw [hd] at e2
+      refine ⟨?_, rfl⟩
+      cases after with
+      | nil =>
+        have hr : rest s = ((rest s).takeWhile isLayout ++ ((rest s).drop ((rest s).takeWhile isLayout).length).takeWhile (fun b => b != 46) ++ [46]) ++ [] := by
+          rw [List.append_nil, List.append_assoc, e2, e1]
+        have := good_advance h _ _ hr
+        simpa [countNl_append, countNl, nlCount, Nat.add_assoc] using this
+      | cons x a' =>
+        by_cases hx : x = 10
+        · subst hx
+          have hr : rest s = ((rest s).takeWhile isLayout ++ ((rest s).drop ((rest s).takeWhile isLayout).length).takeWhile (fun b => b != 46) ++ [46, 10]) ++ a' := by
+            rw [List.append_assoc, List.append_assoc]
+            simp only [List.cons_append, List.nil_append]
+            rw [e2, e1]
+          have := good_advance h _ _ hr
+          simpa [countNl_append, countNl, nlCount, Nat.add_assoc] using this
+        · have hr : rest s = ((rest s).takeWhile isLayout ++ ((rest s).drop ((rest s).takeWhile isLayout).length).takeWhile (fun b => b != 46) ++ [46]) ++ (x :: a') := by
+            rw [List.append_assoc, List.append_assoc]
+            simp only [List.cons_append, List.nil_append]
+            rw [e2, e1]
+          have := good_advance h _ _ hr
+          simpa [countNl_append, countNl, nlCount, Nat.add_assoc, hx] using this
+    · refine ⟨?_, rfl⟩
+      have hr : rest s = ((rest s).takeWhile isLayout ++ ((rest s).drop ((rest s).takeWhile isLayout).length).takeWhile (fun b => b != 46)) ++ ((rest s).drop ((rest s).takeWhile isLayout).length).drop (((rest s).drop ((rest s).takeWhile isLayout).length).takeWhile (fun b => b != 46)).length := by
+        rw [List.append_assoc, e2, e1]
+      have := good_advance h _ _ hr
+      simpa [countNl_append, Nat.add_assoc] using this
+
 
 end Scryer.Stream
